@@ -316,6 +316,9 @@ MERGE_FAILURES = [
     "invalid-lhs", "missing-input", "backup-without-overwrite",
     "mergeat-uncreatable", "mergeat-unmatched", "unreadable-input",
     "unreadable-config", "output-dir-missing",
+    # the same causes delivered through the other channels
+    "implicit-stdin-invalid", "implicit-stdin-clash", "dash-stdin-invalid",
+    "multidoc-self-clash",
 ]
 OUTPUT_MODES = ["stdout", "output-new", "overwrite-input", "overwrite-other",
                 "overwrite-new"]
@@ -355,7 +358,11 @@ def gen_merge(rng, label=None, backup=None, mode=None):
     if label is None or label in ("type-clash", "anchor-stop", "invalid-rhs",
                                   "invalid-lhs", "missing-input",
                                   "mergeat-uncreatable", "mergeat-unmatched",
-                                  "unreadable-input", "unreadable-config"):
+                                  "unreadable-input", "unreadable-config",
+                                  "implicit-stdin-invalid",
+                                  "implicit-stdin-clash",
+                                  "dash-stdin-invalid",
+                                  "multidoc-self-clash"):
         mode = mode or rng.choice(OUTPUT_MODES)
     elif label == "output-exists":
         mode = "output-existing"
@@ -455,6 +462,23 @@ def gen_merge(rng, label=None, backup=None, mode=None):
             inputs.append(W + "in1.yaml")
         files[inputs[1]] = "---\nq: 1\n"
         argv += ["-m", "/l[n=9]"]
+    elif label in ("implicit-stdin-invalid", "implicit-stdin-clash",
+                   "dash-stdin-invalid"):
+        files[inputs[0]] = "---\nk:\n  a: 1\n"
+        for name in inputs[1:]:
+            files[name] = "---\nother: 2\n"
+        tty = False
+        if label == "implicit-stdin-clash":
+            stdin = "---\n- a\n- list into a hash\n"
+        else:
+            stdin = INVALID_DOCS[rng.choice(sorted(INVALID_DOCS))]
+        if label == "dash-stdin-invalid":
+            inputs.append("-")
+    elif label == "multidoc-self-clash":
+        del inputs[1:]
+        files[inputs[0]] = "---\nk:\n  a: 1\n---\n- a\n- list\n"
+        argv = [a for i, a in enumerate(argv)
+                if a != "-M" and (i == 0 or argv[i - 1] != "-M")]
     elif label == "unreadable-input":
         unreadable.append(rng.choice(inputs))
     elif label == "unreadable-config":
@@ -479,6 +503,9 @@ def gen_merge(rng, label=None, backup=None, mode=None):
     argv += inputs
     if tty is True and rng.random() < 0.2:
         argv.insert(0, "-S")
+    if label in ("implicit-stdin-invalid", "implicit-stdin-clash") \
+            and "-c" in argv:
+        pass
     return {
         "tool": "yaml-merge", "argv": argv, "files": files,
         "unreadable": unreadable, "dirs": dirs, "stdin": stdin, "tty": tty,
@@ -520,17 +547,16 @@ class SecretDocGen:
             plain = "hunter2"
         text = self.cipher(plain)
         style = rng.choice(["", "", '"', "'", ">", ">", "|"])
-        if style in (">",):
+        if style in (">", "|"):
+            # line breaks anywhere, including inside the ENC[ marker itself
             width = rng.choice([8, 16, 30])
-            text = " ".join(text[i:i + width]
-                            for i in range(0, len(text), width))
-        elif style == "|":
-            width = rng.choice([8, 16, 30])
-            text = "\n".join(text[i:i + width]
-                             for i in range(0, len(text), width))
-        elif style in ('"', "'") and rng.random() < 0.3:
-            # whitespace inside a quoted ciphertext
-            cut = rng.randrange(4, len(text) - 1)
+            first = rng.choice([width, width, 1, 2, 3, 4])
+            parts = [text[:first]] + [text[i:i + width]
+                                      for i in range(first, len(text), width)]
+            text = (" " if style == ">" else "\n").join(parts)
+        elif style in ('"', "'") and rng.random() < 0.4:
+            # whitespace inside a quoted ciphertext (marker included)
+            cut = rng.randrange(1, len(text) - 1)
             text = text[:cut] + " " + text[cut:]
         node = gd.S(text, style, anchor)
         node["secret"] = plain
